@@ -60,6 +60,9 @@ def run_one(pid, case):
                 return dict(case, outcome="stale", detail="patch does not apply to the current tree")
         env = dict(os.environ, STAM_REPO=repo, STAM_VERIF_NOEVIDENCE="1", STAM_VERIF_NOSELFTEST="1")
         r = subprocess.run([os.path.join(VERIF, "bin", "check"), pid, "--tier", "quick"], env=env, capture_output=True, text=True)
+        if "does /repo compile?" in (r.stdout + r.stderr):
+            # the variant applies but no longer builds (a later repair renamed what it uses): no verdict either way
+            return dict(case, outcome="stale", detail="the patched tree does not compile")
         v = [l for l in r.stdout.splitlines() if l.startswith("VIOLATION")]
         keys = sorted(set(l.split(" key=")[1].split(" ")[0] for l in v if " key=" in l))
         fired = bool(v)
